@@ -19,6 +19,7 @@ theorems, each under the explicit hypothesis that excludes the failing region:
 -/
 import LinVerif.Lemmas.C11Refine
 import LinVerif.Lemmas.C11Query
+import LinVerif.Lemmas.C11Compose
 import LinVerif.Generated.C11
 
 namespace LinVerif.Props.C11
@@ -283,6 +284,66 @@ theorem page_query_flush_invariant (w : Nat) (hw : 0 < w) (A : AggType) (hc : Ag
     rw [hview t] at ht
     simpa [memView_fresh] using ht
   rw [flushCell_eq_memView A hinv (Or.inl hc) lo hi s hcov']
+
+/-- **Leaf answer = naive reference.** For every history of writes / window compactions /
+flushes / file compactions / reopens with `goodOps`, every query on a field whose function's agg
+type is the field's own commutative aggregate (sum on sum/histogram, min on min, max on max), any
+time range, interval ratio, group of series and list of families: if in every family the query
+does not hit a not-found rule and every overlapping file feeds the queried field (`familyOKB`,
+executable), then bucket `t` of the leaf answer of the group equals the reference — independent of
+where the flushes, compactions and reopens were placed. -/
+theorem query_eq_naive_partial (w : Nat) (hw : 0 < w) (sch : List (Nat × FieldType)) (ops : List Op)
+    (hg : goodOps { Shard.init w with fieldTypes := sch } ops = true)
+    (q : Query) (sc : Scope) (fams group : List Nat)
+    (hfa : (runOps { Shard.init w with fieldTypes := sch } ops).fieldAgg q.field = q.fieldAgg)
+    (hF : q.funcAgg = q.fieldAgg) (hc : AggType.isComm q.fieldAgg = true) (hspf : 0 < q.spf)
+    (hok : ∀ fam ∈ fams, familyOKB (runOps { Shard.init w with fieldTypes := sch } ops) q sc fam = true) (t : Nat) :
+    arrGet (leafGroup (runOps { Shard.init w with fieldTypes := sch } ops) q sc [q.fieldAgg] fams group) q.fieldAgg t =
+      naiveBucket q (pointsOf ops) group fams t := by
+  have hinv : Inv (runOps { Shard.init w with fieldTypes := sch } ops) (pointsOf ops) := by
+    simpa using inv_runOps ops _ [] (inv_init w hw sch) hg
+  have hcomm : AggComm ((runOps { Shard.init w with fieldTypes := sch } ops).fieldAgg q.field) := by
+    rw [hfa]; exact agg_comm_of_isComm hc
+  have := leafGroup_eq_fsum _ _ hinv q sc hspf hcomm fams group
+    (fun fam hf => familyOK_of_B _ q sc fam (hok fam hf)) t
+  rw [hfa] at this
+  rw [this, naiveBucket_eq_fsum, hF]
+  apply fsum_congr
+  intro ser _
+  apply fsum_congr
+  intro fam _
+  apply fsum_congr
+  intro slot _
+  have hr := hinv.refines fam ser q.field slot
+  rw [hfa] at hr
+  rw [hr]
+
+/-- the answer of the group as the leaf sends it (non-empty buckets, ascending). -/
+theorem query_group_eq_naive_partial (w : Nat) (hw : 0 < w) (sch : List (Nat × FieldType)) (ops : List Op)
+    (hg : goodOps { Shard.init w with fieldTypes := sch } ops = true)
+    (q : Query) (sc : Scope) (fams group : List Nat)
+    (hfa : (runOps { Shard.init w with fieldTypes := sch } ops).fieldAgg q.field = q.fieldAgg)
+    (hF : q.funcAgg = q.fieldAgg) (hc : AggType.isComm q.fieldAgg = true) (hspf : 0 < q.spf)
+    (hok : ∀ fam ∈ fams, familyOKB (runOps { Shard.init w with fieldTypes := sch } ops) q sc fam = true) :
+    bucketsOf q (leafGroup (runOps { Shard.init w with fieldTypes := sch } ops) q sc [q.fieldAgg] fams group) q.fieldAgg =
+      naiveGroup q (pointsOf ops) group fams := by
+  unfold bucketsOf naiveGroup
+  congr 1
+  funext t
+  rw [query_eq_naive_partial w hw sch ops hg q sc fams group hfa hF hc hspf hok t]
+
+/-- the hypotheses are satisfiable: two series, two families, window exits, a flush between two
+writes of one slot, a file compaction, a reopen; query over both families with ratio 6. -/
+example :
+    let ops : List Op := [.write 1 0 1 1 .sum 5 1, .write 1 0 2 1 .sum 5 7, .write 2 1 1 1 .sum 9 2,
+      .write 1 0 1 1 .sum 30 3, .flush 0, .write 3 0 1 1 .sum 5 10, .write 3 0 2 1 .sum 6 1, .flush 0, .compact 0,
+      .write 4 0 1 1 .sum 7 1, .write 4 0 2 1 .sum 7 1]
+    let s := runOps { Shard.init 15 with fieldTypes := [(1, .sum)] } ops
+    let q : Query := ⟨1, .sum, .sum, 32, 0, 63, 6⟩
+    goodOps { Shard.init 15 with fieldTypes := [(1, .sum)] } ops = true ∧
+    (∀ fam ∈ [0, 1], familyOKB s q ⟨[1], [1, 2]⟩ fam = true) ∧
+    bucketsOf q (leafGroup s q ⟨[1], [1, 2]⟩ [.sum] [0, 1] [1, 2]) .sum = [(0, 18), (1, 3), (5, 3), (6, 2)] := by
+  decide
 
 /-- **Field functions** on the abstract map: sum/min/max/count/first/last return the field's array
 for the function's agg type unchanged, `rate` divides by the query interval in seconds. -/
